@@ -1,0 +1,38 @@
+//go:build verif && amd64
+// +build verif,amd64
+
+package gf2p16
+
+// Verification hooks (build tag "verif"): the register-level SSSE3 entry
+// points that the package's own tests use, for comparison with the
+// instruction-level model of the verification framework.
+
+// VerifStandardToAltMap calls standardToAltMapSSSE3Unsafe.
+func VerifStandardToAltMap(in0, in1 [16]byte) (outLow, outHigh [16]byte) {
+	standardToAltMapSSSE3Unsafe(&in0, &in1, &outLow, &outHigh)
+	return
+}
+
+// VerifAltToStandardMap calls altToStandardMapSSSE3Unsafe.
+func VerifAltToStandardMap(inLow, inHigh [16]byte) (out0, out1 [16]byte) {
+	altToStandardMapSSSE3Unsafe(&inLow, &inHigh, &out0, &out1)
+	return
+}
+
+// VerifMulAltMap calls mulAltMapSSSE3Unsafe for the constant c.
+func VerifMulAltMap(c T, inLow, inHigh [16]byte) (outLow, outHigh [16]byte) {
+	mulAltMapSSSE3Unsafe(&mulTable64[c], &inLow, &inHigh, &outLow, &outHigh)
+	return
+}
+
+// VerifMulSSSE3 calls mulSSSE3Unsafe for the constant c.
+func VerifMulSSSE3(c T, in0, in1 [16]byte) (out0, out1 [16]byte) {
+	mulSSSE3Unsafe(&mulTable64[c], &in0, &in1, &out0, &out1)
+	return
+}
+
+// VerifMulAndAddSSSE3 calls mulAndAddSSSE3Unsafe for the constant c.
+func VerifMulAndAddSSSE3(c T, in0, in1, out0, out1 [16]byte) ([16]byte, [16]byte) {
+	mulAndAddSSSE3Unsafe(&mulTable64[c], &in0, &in1, &out0, &out1)
+	return out0, out1
+}
